@@ -117,6 +117,11 @@ impl PaddingFactory {
                 if min_val == max_val {
                     sizes.push(min_val as i32);
                 } else {
+                    #[cfg(anytls_verif)]
+                    if let Some(forced) = crate::verif::draw(min_val, max_val) {
+                        sizes.push(forced as i32);
+                        continue;
+                    }
                     let size = rand::random_range(min_val..=max_val);
                     sizes.push(size as i32);
                 }
